@@ -63,6 +63,9 @@ func (o *Obj) Set(k string, v interface{}) {
 
 // IsTimeLike: the string is what both inference and execution would read as a Time.
 func IsTimeLike(s string) bool {
+	if len(s) < 20 || s[4] != '-' || s[10] != 'T' {
+		return false
+	}
 	_, err := time.Parse(time.RFC3339Nano, s)
 	return err == nil
 }
@@ -135,8 +138,20 @@ func (w *JSONWriter) WriteString(b *bytes.Buffer, s string) {
 		case r == '\\':
 			b.WriteString(`\\`)
 		case r < 0x20:
-			short := map[rune]string{'\n': `\n`, '\r': `\r`, '\t': `\t`, '\b': `\b`, '\f': `\f`}
-			if e, ok := short[r]; ok && (w.Style == 0 || w.Rng.Intn(2) == 0) {
+			e := ""
+			switch r {
+			case '\n':
+				e = `\n`
+			case '\r':
+				e = `\r`
+			case '\t':
+				e = `\t`
+			case '\b':
+				e = `\b`
+			case '\f':
+				e = `\f`
+			}
+			if e != "" && (w.Style == 0 || w.Rng.Intn(2) == 0) {
 				b.WriteString(e)
 			} else {
 				w.u(b, r)
@@ -161,11 +176,15 @@ func (w *JSONWriter) WriteString(b *bytes.Buffer, s string) {
 }
 
 func (w *JSONWriter) u(b *bytes.Buffer, r rune) {
+	digits := "0123456789abcdef"
 	if w.Rng.Intn(2) == 0 {
-		fmt.Fprintf(b, `\u%04x`, r)
-	} else {
-		fmt.Fprintf(b, `\u%04X`, r)
+		digits = "0123456789ABCDEF"
 	}
+	b.WriteString(`\u`)
+	b.WriteByte(digits[(r>>12)&15])
+	b.WriteByte(digits[(r>>8)&15])
+	b.WriteByte(digits[(r>>4)&15])
+	b.WriteByte(digits[r&15])
 }
 
 // Show renders a model value for messages (Go-ish, deterministic).
@@ -288,7 +307,7 @@ func RandStr(rng *rand.Rand, o StrOpts) string {
 	}
 	for try := 0; try < 50; try++ {
 		n := rng.Intn(max + 1)
-		if rng.Intn(40) == 0 {
+		if rng.Intn(400) == 0 {
 			n = 200 + rng.Intn(2000)
 		}
 		var sb strings.Builder
